@@ -339,8 +339,12 @@ def run(ctx):
             og = ctx.og(wb)
             items = og.of_operand(wb.term(ab[0])["args"][1])
             cnt = og.of_operand(wb.term(ab[0])["args"][2])
-            ok1 = any(A.access_path(x) == ("P1", "data") for x in A.walk(items)) and any(A.access_path(x) == ("P1", "data") for x in A.walk(cnt))
-            ctx.ob("R-C03.5", wb, "journals-all-own-items", ok1, "write_batch(items := %s, count := %s)" % (A.tstr(items)[:60], A.tstr(cnt)[:60]))
+            DROPPING_ = ("filter", "filter_map", "skip", "skip_while", "take", "take_while", "step_by", "rev", "chain", "flat_map", "dedup", "nth", "zip")
+            adapt = sorted({x.a[0].rsplit("::", 1)[-1] for x in A.walk(items) if x.k == "call" and x.a[0].rsplit("::", 1)[-1] in DROPPING_})
+            cnt_ok = cnt.k == "call" and cnt.a[0].endswith("::len") and any(A.access_path(x) == ("P1", "data") for x in A.walk(cnt))
+            ok1 = any(A.access_path(x) == ("P1", "data") for x in A.walk(items)) and cnt_ok and not adapt
+            ctx.ob("R-C03.5", wb, "journals-all-own-items", ok1, "write_batch(items := %s, count := %s)" % (A.tstr(items)[:60], A.tstr(cnt)[:60]) +
+                   ("" if ok1 else " — the items journaled are not exactly self.data (adaptors %s) or the announced count is not self.data.len(): the Start marker announces more items than the frame holds, the End marker is reached with items missing and recovery of the whole journal fails (or, the other way round, items are cut off)" % adapt))
             # the loop applies the same items
             takes = [b for b, t in wb.calls() if A.cname(t).startswith("std::mem::take")]
             ok2 = False
